@@ -469,7 +469,7 @@ def dummy_sensor_getter(name, value=None, dtype=np.float64, timestamp=HOLE_c10_d
         if np.issubdtype(dtype, np.floating):
             value = np.dtype(dtype).type(np.nan)
         elif np.issubdtype(dtype, np.integer):
-            value = np.dtype(dtype).type(-1)
+            value = np.array(-1).astype(dtype)[()]
         elif np.issubdtype(dtype, np.bytes_) or np.issubdtype(dtype, np.str_):
             value = ''
         elif np.issubdtype(dtype, np.bool_):
